@@ -405,6 +405,24 @@ def check_C06(c):
         oc = outcome_of(ic[2 * i + 1])
         if not (oc[0] == "OK" and sexp_str(oc[1]) == exp):
             c.violation("implementation-vs-property", "assignment semantics", {"input_text": p, "expected": exp, "implementation": ic[2 * i + 1]})
+    # a failing statement keeps the bindings made so far — also those made inside the arguments of a call that then fails
+    # (unknown function) and by the inner assignment of a chain (assignment operators group right to left)
+    fcases = [("nosuch(x = 1)", {"x": "(n 0 1 0)"}), ("c = 10; nosuch(a += 1, b = a * 5); c = 20", {"a": "(n 0 2 0)", "b": "(n 0 10 0)", "c": "(n 0 10 0)"}),
+              ("x |= y = 4", {"x": "(n 0 1 0)", "y": "(n 0 4 0)"}), ("x <<= y <<= 1", {"x": "(n 0 1 0)", "y": "(n 0 4 0)"}),
+              ("x += y -= nosuch(z = 7)", {"x": "(n 0 1 0)", "y": "(n 0 2 0)", "z": "(n 0 7 0)"})]
+    fq = []
+    for p, exp in fcases:
+        fq += [ctx_line("c", [("x", "v", n(1)), ("y", "v", n(2)), ("a", "v", n(1))]), exec_line("c", p)] + ["GETVAR\tc\t" + hx(k_) for k_ in sorted(exp)]
+    fi, fm = both(fq)
+    c.add_stream(Stream("failing statements: bindings made before the failure stay", fq, fi, fm))
+    pos = 0
+    for p, exp in fcases:
+        oc = outcome_of(fi[pos + 1])
+        got = {k_: fi[pos + 2 + j] for j, k_ in enumerate(sorted(exp))}
+        if oc[0] != "ERR" or any(norm_numbers(exp[k_]) not in norm_numbers(got[k_]) for k_ in exp):
+            c.violation("implementation-vs-property", "after a failing statement the context does not hold exactly the bindings made so far",
+                        {"input_text": p, "expected_bindings": exp, "requests": fq[pos:pos + 2 + len(exp)], "implementation": fi[pos:pos + 2 + len(exp)]})
+        pos += 2 + len(exp)
     for p in ["1 = 2", "f() = 1", "(x) = 1", "[x] = 1", "x + 1 = 2", "'s' = 1", "1 += 2"]:
         im = run_impl(["CTX\tc\t((%s f (const (n 0 1 0))))" % hx("f"), exec_line("c", p)])
         if p == "(x) = 1":
@@ -606,6 +624,10 @@ def check_C15(c):
         last = sexp_parse(logf)[-1][0] if logf not in ("", "()") and sexp_parse(logf) else None
         if last != hx(tag):
             ok = False
+        # the context still binds both context functions afterwards (a failing function is not unbound)
+        dump = fol[2].split("\t")[2] if len(fol[2].split("\t")) > 2 else ""
+        if "(%s f)" % hx("fc") not in dump or "(%s f)" % hx("fb") not in dump:
+            ok = False
         if not ok:
             c.violation("implementation-vs-property", "a failing/panicking %s handler was not contained (%s)" % (fk, kind_),
                         {"requests": reqs[off: base + 7], "implementation": impl[off: base + 7], "input_text": prog})
@@ -644,7 +666,9 @@ def check_C14(c):
                ("reginfix", ["reg", "infix", hx("newi"), "95", "calc", "left", ["arg", "0"]]),
                ("regpostfix", ["reg", "postfix", hx("newq"), "0", "calc", "left", ["arg", "0"]]),
                ("lockctx", ["lockctx"]),
-               ("nested2", ["exec", hx("g2() + 1")]), ("nested3", ["exec", hx("g3()")])]
+               ("nested2", ["exec", hx("g2() + 1")]), ("nested3", ["exec", hx("g3()")]),
+               # re-entry forty evaluations deep (r40 evaluates r39() + 1, … r0 is a constant): "at any nesting depth"
+               ("nested40", ["exec", hx("r40()")])]
     kinds = ["ctxcall", "ctxbare", "global", "prefix", "infix", "postfix", "setter"]
     reqs, meta = [], []
     for kind_ in kinds:
@@ -654,6 +678,9 @@ def check_C14(c):
             script = ["seq", act, ["const", n(5)]]
             pre = ["REG\tfn\t%s\t0\tcalc\tleft\t%s" % (hx("g2"), sexp_str(["exec", hx("1 + 1")])),
                    "REG\tfn\t%s\t0\tcalc\tleft\t%s" % (hx("g3"), sexp_str(["exec", hx("g2() * 2")]))]
+            if aname == "nested40":
+                pre.append("REG\tfn\t%s\t0\tcalc\tleft\t%s" % (hx("r0"), sexp_str(["const", n(0)])))
+                pre += ["REG\tfn\t%s\t0\tcalc\tleft\t%s" % (hx("r%d" % k_), sexp_str(["exec", hx("r%d() + 1" % (k_ - 1))])) for k_ in range(1, 41)]
             binds = [("a", "v", n(1))]
             if kind_ in ("ctxcall", "ctxbare"):
                 binds.append(("h", "f", script))
@@ -759,10 +786,10 @@ def check_C08(c):
             if got != exp:
                 c.violation("implementation-vs-property", "dispatch / last-registration-wins", {"requests": h, "implementation": impl, "step": idx, "expected": exp})
     # (2) registered infix operators at arbitrary precedences, adjacent ones included, both associativities
-    precs = sorted(set([1, 2, 19, 20, 21, 39, 40, 41, 59, 60, 61, 109, 110, 111, 119, 120, 121, 199, 200, 201, 999999999, 1000000000] +
+    precs = sorted(set([1, 2, 19, 20, 21, 39, 40, 41, 59, 60, 61, 109, 110, 111, 119, 120, 121, 199, 200, 201, 999999999, 1000000000, 2 ** 30, 2 ** 31 - 2, 2 ** 31 - 1] +
                        [p + d for p in (50, 70, 80, 90, 100) for d in (-1, 0, 1)]))
     if c.quick():
-        precs = [p for i, p in enumerate(precs) if i % 3 == (c.seed % 3)] + [111, 109, 1000000000, 1]
+        precs = [p for i, p in enumerate(precs) if i % 3 == (c.seed % 3)] + [111, 109, 1000000000, 1, 2 ** 30, 2 ** 31 - 1]
     nb = 0
     for p in precs:
         for right in (False, True):
@@ -951,6 +978,19 @@ def check_C17(c):
             pass
     for e in range(-40, 41, 4):
         fl.append(("f64", struct.pack(">d", float("1e%d" % e)).hex()))
+    # integer-valued floats within the decimal range are exactly decimals: they must convert exactly (powers of two and
+    # their neighbours — the edges of every integer type — and random 53-bit integers scaled by powers of two)
+    import math
+    for k_ in range(0, 96):
+        for sg in (1.0, -1.0):
+            x = sg * 2.0 ** k_
+            for y in (x, math.nextafter(x, 0.0), math.nextafter(x, sg * math.inf)):
+                fl.append(("f64", struct.pack(">d", y).hex()))
+            if k_ < 64:
+                fl.append(("f32", struct.pack(">f", x).hex()))
+    for _ in range(300 if c.quick() else 20000):
+        x = float(rng.below(2 ** 53) | (1 << 52)) * 2.0 ** rng.below(43)
+        fl.append(("f64", struct.pack(">d", x if rng.chance(1, 2) else -x).hex()))
     for _ in range(200 if c.quick() else 5000):
         fl.append(("f64", "%016x" % rng.next()))
         fl.append(("f32", "%08x" % (rng.next() & 0xFFFFFFFF)))
@@ -966,6 +1006,9 @@ def check_C17(c):
         x = struct.unpack(">d", bytes.fromhex(bits))[0] if ty == "f64" else struct.unpack(">f", bytes.fromhex(bits))[0]
         if f[2] == "faithful":
             float_stats["faithful"] += 1
+        elif x == x and abs(x) < 2.0 ** 96 and x == math.floor(x):
+            c.violation("implementation-vs-property", "an integer-valued float within the decimal range converts to a different number",
+                        {"request": r, "value": repr(x), "exact": str(int(x)), "implementation": a})
         elif f[3] in ("nonfinite", "huge") or abs(x) < 1e-28:
             float_stats["unfaithful_in_finding_zone"] += 1
             wide_hit = True
@@ -1266,7 +1309,7 @@ def check_C13(c):
                             {"schedule": "harness: sched rereg-forced %s — register op; thread A evaluates while thread B registers it again (A is woken by the replaced handler's destructor)" % kind_,
                              "implementation": out, "expected": "during ∈ {%d, %d}, after = %d" % (old, new, new)})
     for i in range(3 if c.quick() else 100):
-        rc, out = sched(["rereg-race", 20000 if c.quick() else 100000], timeout=300)
+        rc, out = sched(["rereg-race", 20000 if c.quick() else 100000], timeout=90 if c.quick() else 300)
         n_rereg += 1
         c.count("rereg-race %d" % i)
         if rc != 0 or out != "ok ok ok ok":
@@ -1305,7 +1348,10 @@ def check_C16(c):
     rng = c.rng
     progs_pool = ["x = 1; x + 1", "x", "x = x; x", "y = 2; x = y * 3; [x, y]", "1/0", "x = 5; 1/0; x = 6", "f = 1; f", "a = 'one'; a", "a", "max(1,2) + sum(1,2,3)",
                   "z = [1,2]; z", "z", "q += 1", "q = 1; q += 1; q", "t = true ? 1 : 2; t", "[x, y, z, a, q, t]", "'s' beginWith 's'", "1 + 2 * 3 not in [7]", "x = 10; x <<= 2; x",
-                  "v = v; v", "n = n + 1", "(1", "1 +", "{1: x}", "x = 1; y = x; x = 2; [x, y]"]
+                  "v = v; v", "n = n + 1", "(1", "1 +", "{1: x}", "x = 1; y = x; x = 2; [x, y]",
+                  # texts that differ only by white space *inside* a string literal are different programs
+                  "s = 'a b'; s == 'a b'", "s = 'a b'; s == 'a  b'", "s = 'a b'; s == 'a\tb'", "'x y' endWith ' y'", "'x  y' endWith ' y'", "['a b', 'a  b', 'a\nb']",
+                  "s = 'a b';  s  ==  'a b'"]
     n_hist = 40 if c.quick() else 800
     total = 0
     for hi in range(n_hist):
@@ -1402,6 +1448,21 @@ def check_C16(c):
         if not (oc[0] == "OK" and sexp_str(oc[1]) == exp):
             c.violation("implementation-vs-property", "a result depends on unrelated calls made since a registration (the registration of a built-in name did not stay in force)",
                         {"requests": bh[:i + 1], "input_text": p, "expected": exp, "implementation": bi_[i]})
+    # contexts made the same way (all empty) share nothing: an assignment through one is invisible through the others,
+    # on either thread
+    sep = ["CTX\ta\t()", "CTX\tb\t()", "ONW\tCTX\tw\t()", exec_line("a", "limit = 40 + 2; limit"), exec_line("b", "limit"), "ONW\t" + exec_line("w", "limit"),
+           "CTX\td\t()", exec_line("d", "limit"), exec_line("d", "n += 1; n"), exec_line("a", "n = 10"), exec_line("d", "n += 1; n"), "GETVAR\tb\t" + hx("limit")]
+    si_, sm_ = both(sep)
+    c.add_stream(Stream("separate empty contexts", sep, si_, sm_))
+    total += len(sep)
+    want = {3: "(n 0 42 0)", 4: "(none)", 5: "(none)", 7: "(none)", 8: "ERR", 10: "ERR"}
+    for i_, exp in want.items():
+        oc = outcome_of(si_[i_])
+        got = sexp_str(oc[1]) if oc[0] == "OK" else oc[0]
+        if got != exp:
+            c.violation("implementation-vs-property", "a result depends on what was evaluated with another context", {"requests": sep[:i_ + 1], "expected": exp, "implementation": si_[i_]})
+    if "(n " in si_[11]:
+        c.violation("implementation-vs-property", "a variable assigned through one context is bound in another", {"requests": sep, "implementation": si_[11]})
     # same AST evaluated repeatedly with equal contexts
     rep = []
     for p in progs_pool:
